@@ -233,6 +233,7 @@ func openOpt(db *mc.CrashDB, plain bool) (*node, error) {
 	if err != nil {
 		return nil, err
 	}
+	bc.VerifWaitIndexersActive() // else Stop() leaves the indexers' event loops (and the chain) behind
 	st := staking.NewStaking(nil)
 	if !plain {
 		st.Register(bc.Processor())
